@@ -72,6 +72,9 @@ def step (st : St) (toks : List String) : St × String :=
         | .error (.error m) => (st, "err " ++ hexOfString m)
         | .error (.exit c) => (st, "exit " ++ toString c))
     | _, _ => (st, "bad-request")
+  | ["runreset"] =>
+    -- `SEval.reset()` + reload of std: everything as on a fresh interpreter, the loaded traces rewound to index 0
+    ({ initSt with tc := { st.tc with traces := st.tc.traces.map (fun t => { t with index := 0 }) } }, "ok")
   | ["state"] => (st, showState st)
   | "optimize" :: rest =>
     match parseSx rest with
